@@ -62,28 +62,28 @@ DIRECT_OPS = ['map', 'starmap', 'filter', 'accumulate', 'slice', 'partition', 'p
 
 PROFILES = {
     # property -> (node pool, weights of modes, options)
-    'C01': dict(pool=SYNC_OPS, modes=['loopless', 'loopless', 'async', 'threaded'], md=0.3, sinks=['sync']),
+    'C01': dict(pool=SYNC_OPS, modes=['loopless', 'loopless', 'async', 'threaded'], md=0.3, sinks=['sync'], feedback=True),
     'C10': dict(pool=SYNC_OPS + ASYNC_LOSSLESS + LOSSY, modes=['loopless', 'async', 'async'], md=0.85,
                 sinks=['sync', 'native', 'tornado', 'future']),
     'C02': dict(pool=ASYNC_LOSSLESS + ['map', 'filter', 'zip', 'union', 'accumulate', 'sliding_window', 'partition', 'flatten',
                                         'zip_latest', 'combine_latest', 'collect', 'pluck', 'starmap', 'slice', 'unique'],
-                need=ASYNC_LOSSLESS + ['zip', 'union'], modes=['async', 'async', 'async', 'threaded'], md=0.3,
+                need=ASYNC_LOSSLESS + ['zip', 'union'], modes=['async', 'async', 'async', 'threaded'], md=0.3, stalls=True,
                 sinks=['sync', 'native', 'tornado', 'future']),
     'C03': dict(pool=['buffer', 'map_async', 'zip', 'rate_limit', 'map', 'filter', 'partition', 'sliding_window',
                       'timed_window', 'union', 'accumulate', 'delay', 'partition_t', 'flatten', 'slice',
                       'zip_latest', 'combine_latest', 'collect', 'pluck'],
-                need=['buffer', 'map_async', 'zip'], modes=['async', 'async', 'threaded'], md=0.2, await_all=True,
+                need=['buffer', 'map_async', 'zip'], modes=['async', 'async', 'threaded'], md=0.2, await_all=True, stalls=True,
                 sinks=['native', 'tornado', 'future', 'sync']),
     'C04': dict(pool=SYNC_OPS + ASYNC_LOSSLESS + LOSSY, need=ASYNC_LOSSLESS + LOSSY + ['sink_async'],
-                modes=['async'], md=1.0, refs=True, inject_failures=True, sinks=['native', 'tornado', 'future', 'sync']),
-    'C05': dict(pool=SYNC_OPS + ASYNC_LOSSLESS + LOSSY, modes=['loopless', 'async', 'async'], md=1.0, refs=True,
+                modes=['async'], md=1.0, refs=True, inject_failures=True, stalls=True, sinks=['native', 'tornado', 'future', 'sync']),
+    'C05': dict(pool=SYNC_OPS + ASYNC_LOSSLESS + LOSSY, modes=['loopless', 'async', 'async'], md=1.0, refs=True, stalls=True,
                 sinks=['sync', 'native', 'tornado', 'future']),
     'C08': dict(pool=['timed_window', 'partition_t', 'timed_window_unique', 'map', 'filter', 'buffer', 'flatten'],
                 need=['timed_window', 'partition_t', 'timed_window_unique'], modes=['async'], md=0.3,
                 sinks=['native', 'tornado', 'future', 'sync'], bursts=True),
-    'C13': dict(pool=['rate_limit', 'delay', 'map', 'filter', 'union', 'buffer'], need=['rate_limit', 'delay'],
+    'C13': dict(pool=['rate_limit', 'delay', 'map', 'filter', 'union', 'buffer'], need=['rate_limit', 'delay'], stalls=True,
                 modes=['async'], md=0.2, sinks=['sync', 'native', 'tornado', 'future'], bursts=True),
-    'C14': dict(pool=['latest', 'map', 'filter', 'union'], need=['latest'], modes=['async'], md=0.4,
+    'C14': dict(pool=['latest', 'map', 'filter', 'union'], need=['latest'], modes=['async'], md=0.4, stalls=True,
                 sinks=['native', 'tornado', 'future', 'sync'], bursts=True),
     'C16': dict(pool=DIRECT_OPS + ['rate_limit'], modes=['loopless', 'async', 'async', 'threaded'], md=1.0, refs=True,
                 sinks=['sync', 'native', 'tornado', 'future']),
@@ -410,6 +410,15 @@ class G:
         n_entries = self.pick([1, 1, 1, 2, 2, 3])
         for _ in range(n_entries):
             self.add({'op': 'source'}, INT)
+        feedback = []
+        if pf.get('feedback') and self.chance(0.15):
+            # feedback template: src -> unique -> map(x -> (x+1, x+2) while x < K) -> flatten -> back into src
+            src = 0
+            K = TOKEN_BASE + self.pick([3, 5, 8])
+            u = self.add({'op': 'unique', 'up': [src]}, INT)
+            g = self.add({'op': 'map', 'up': [u], 'fn': ['grow', K]}, ('var', 0, INT))
+            fl = self.add({'op': 'flatten', 'up': [g]}, INT)
+            feedback.append({'from': fl, 'to': src})
         target = r.randrange(1, 11 if big else 8)
         tries = 0
         placed_must = must is None
@@ -480,6 +489,14 @@ class G:
                         if n['id'] in comp and n['op'] == 'sink':
                             n['kind'] = 'sync'
                             n.pop('lat', None)
+        stalls = []
+        if pf.get('stalls') and mode != 'loopless' and self.chance(0.2):
+            # a user function that blocks the whole loop for a while (the docs' time.sleep in a map):
+            # every timer due in the meantime fires late and in one go
+            fnodes = [n for n in self.graph if n['op'] in ('map', 'filter', 'accumulate', 'starmap', 'sink')]
+            for _ in range(r.randrange(1, 4)):
+                if fnodes:
+                    stalls.append({'node': self.pick(fnodes)['id'], 'call': r.randrange(0, 8), 'dur': self.pick([0.25, 0.5, 1, 2, 5])})
         fails = []
         if pf.get('inject_failures') and self.chance(0.3):
             # a consumer (or a map_async job) that raises: its element must never be reported complete
@@ -492,7 +509,9 @@ class G:
         sc = {'format': 1, 'family': 'pipeline', 'property': self.prop, 'seed': seed, 'index': index,
               'mode': mode, 'sched_seed': r.randrange(10000), 'tiebreak': self.pick(['fifo', 'fifo', 'lifo', 'seeded']),
               'tiebreak_seed': r.randrange(1000), 'graph': self.graph, 'producers': producers,
-              'faults': {'stalls': [], 'fail': fails}}
+              'faults': {'stalls': stalls, 'fail': fails}}
+        if feedback:
+            sc['feedback'] = feedback
         return sc
 
 
